@@ -2,5 +2,135 @@
 import TinyHttpModel.Lts.Seq
 import TinyHttpModel.Req
 import TinyHttpModel.WireSpec
+import TinyHttpModel.Lemmas.BodyRead
+import TinyHttpModel.Lemmas.Loop
+import TinyHttpModel.Lemmas.LoopA
 namespace TH
+open TH.Req
+
+/-- the `.buffered n` kind is only produced for `n ≤ smallBodyLimit` without `Expect`. -/
+theorem framingOf_buffered (hs : List Header) (fr : Framing) (n : Nat) (hf : framingOf hs = .ok fr)
+    (hk : fr.kind = .buffered n) : n ≤ Extracted.smallBodyLimit ∧ fr.expectContinue = false := by
+  unfold framingOf at hf
+  simp only [] at hf
+  split at hf
+  · cases hf
+  · split at hf
+    · cases hf
+    · rename_i ex _
+      simp only [Except.ok.injEq] at hf
+      subst hf
+      simp only [] at hk ⊢
+      repeat' split at hk
+      all_goals first
+        | (cases hk; done)
+        | (rename_i hc; cases hk; simp at hc; exact ⟨hc.1, hc.2⟩)
+
+/-- one unfolding of `aheadLoop`, classified. -/
+theorem aheadLoop_succ_cases (fuel : Nat) (bs : Bytes) (fin : EndState) :
+    ((aheadLoop (fuel + 1) bs fin).1 = [] ∧
+      ((aheadLoop (fuel + 1) bs fin).2 = .blockedOnBody → ∃ h rest, readHead bs fin = .ok (h, rest))) ∨
+    ∃ h rest fr, readHead bs fin = .ok (h, rest) ∧ framingOf h.headers = .ok fr ∧
+      (⟨Extracted.maxVersion.1, Extracted.maxVersion.2⟩ : Version).lt h.version = false ∧
+      (∀ n, fr.kind = .buffered n → n ≤ rest.length) ∧
+      ((aheadLoop (fuel + 1) bs fin).1 = [h] ∨
+        ((fr.kind = .empty ∨ ∃ n, fr.kind = .buffered n) ∧ isLastRequest h.version h.headers = false ∧
+          aheadLoop (fuel + 1) bs fin =
+            (h :: (aheadLoop fuel (initialBody fr.kind rest).2 fin).1,
+              (aheadLoop fuel (initialBody fr.kind rest).2 fin).2))) := by
+  rw [aheadLoop]
+  split
+  · exact Or.inl ⟨rfl, fun h => by cases h⟩
+  · exact Or.inl ⟨rfl, fun h => by cases h⟩
+  · rename_i h rest hh
+    split
+    · exact Or.inl ⟨rfl, fun h => by cases h⟩
+    · rename_i fr hf
+      split
+      · exact Or.inl ⟨rfl, fun _ => ⟨h, rest, hh⟩⟩
+      · rename_i hver
+        simp only [Bool.not_eq_true] at hver
+        simp only []
+        split
+        · rename_i hk
+          have hsh : ∀ n, fr.kind = .buffered n → n ≤ rest.length := by
+            intro n hn; rw [hk] at hn; cases hn
+          split
+          · exact Or.inr ⟨h, rest, fr, hh, hf, hver, hsh, Or.inl rfl⟩
+          · rename_i hl
+            simp only [Bool.not_eq_true] at hl
+            exact Or.inr ⟨h, rest, fr, hh, hf, hver, hsh, Or.inr ⟨Or.inl hk, hl, by rw [hk]; rfl⟩⟩
+        · rename_i n hk
+          split
+          · refine Or.inl ⟨rfl, fun _ => ⟨h, rest, hh⟩⟩
+          · rename_i hlen
+            have hsh : ∀ m, fr.kind = .buffered m → m ≤ rest.length := by
+              intro m hm; rw [hk] at hm; cases hm; omega
+            split
+            · exact Or.inr ⟨h, rest, fr, hh, hf, hver, hsh, Or.inl rfl⟩
+            · rename_i hl
+              simp only [Bool.not_eq_true] at hl
+              exact Or.inr ⟨h, rest, fr, hh, hf, hver, hsh, Or.inr ⟨Or.inr ⟨n, hk⟩, hl, by rw [hk]; rfl⟩⟩
+        · rename_i hne hnb
+          have hsh : ∀ m, fr.kind = .buffered m → m ≤ rest.length := by
+            intro m hm; exact absurd hm (hnb m)
+          exact Or.inr ⟨h, rest, fr, hh, hf, hver, hsh, Or.inl rfl⟩
+
+/-- handling a request whose body reader released the socket at parse time neither blocks nor
+    moves the stream. -/
+theorem handle_small (s : St) (h : Head) (fr : Framing) (last : Bool) (a : Action) (rest : Bytes)
+    (fin : EndState) (hk : fr.kind = .empty ∨ ∃ n, fr.kind = .buffered n) :
+    (handle s h fr last a (initialBody fr.kind rest).1 (initialBody fr.kind rest).2 fin).2.1
+        = (initialBody fr.kind rest).2 ∧
+    (handle s h fr last a (initialBody fr.kind rest).1 (initialBody fr.kind rest).2 fin).2.2 = false := by
+  rcases hk with hk | ⟨n, hk⟩
+  · rw [hk]; exact handle_done s h fr last a _ fin
+  · rw [hk]; exact handle_cursor s h fr last a _ _ fin
+
+theorem ahead_prefix (fuel : Nat) : ∀ (idx : Nat) (s : St) (bs : Bytes) (fin : EndState) (script : Script),
+    ∃ more, ((runLoop fuel idx s bs fin script).delivered.drop s.delivered.length).map
+        (fun d => (d.method, d.url, d.version, d.headers))
+      = ((aheadLoop fuel bs fin).1.map (fun h => (h.method, h.url, h.version, h.headers))) ++ more := by
+  induction fuel with
+  | zero => intro idx s bs fin script; exact ⟨_, rfl⟩
+  | succ fuel ih =>
+    intro idx s bs fin script
+    rcases aheadLoop_succ_cases fuel bs fin with ⟨hnil, _⟩ | ⟨h, rest, fr, hh, hf, hver, hsh, hc⟩
+    · rw [hnil]; exact ⟨_, rfl⟩
+    · obtain ⟨o, d, _, hd, hm, hu, hv, hhs, _⟩ := handle_spec s h fr (isLastRequest h.version h.headers)
+        (script idx) (initialBody fr.kind rest).1 (initialBody fr.kind rest).2 fin
+      rw [runLoop_step fuel idx s bs fin script h rest fr hh hf hsh hver]
+      generalize hS : handle s h fr (isLastRequest h.version h.headers) (script idx)
+        (initialBody fr.kind rest).1 (initialBody fr.kind rest).2 fin = S at hd
+      have hdrop : ∀ ds : List Delivered, ((s.delivered ++ [d] ++ ds).drop s.delivered.length).map
+          (fun d => (d.method, d.url, d.version, d.headers))
+          = (h.method, h.url, h.version, h.headers) ::
+              ds.map (fun d => (d.method, d.url, d.version, d.headers)) := by
+        intro ds
+        rw [List.append_assoc, List.drop_left]
+        simp [hm, hu, hv, hhs]
+      rcases hc with hc | ⟨hk, hl, hc⟩
+      · -- a single head is read ahead; the loop delivers it first
+        rw [hc]
+        have hext : ∃ ds, (if S.2.2 = true then S.1.finish .waiting
+            else if isLastRequest h.version h.headers = true then S.1.finish .closed
+            else runLoop fuel (idx + 1) S.1 S.2.1 fin script).delivered = S.1.delivered ++ ds := by
+          split
+          · exact ⟨[], by simp⟩
+          · split
+            · exact ⟨[], by simp⟩
+            · exact (runLoop_ext fuel (idx + 1) S.1 S.2.1 fin script).1
+        obtain ⟨ds, hds⟩ := hext
+        rw [hds, hd, hdrop]
+        exact ⟨_, rfl⟩
+      · have hsm := handle_small s h fr (isLastRequest h.version h.headers) (script idx) rest fin hk
+        rw [hS] at hsm
+        rw [hc, hsm.2, hl, hsm.1]
+        simp only [Bool.false_eq_true, if_false]
+        obtain ⟨more, hmore⟩ := ih (idx + 1) S.1 (initialBody fr.kind rest).2 fin script
+        obtain ⟨ds, hds⟩ := (runLoop_ext fuel (idx + 1) S.1 (initialBody fr.kind rest).2 fin script).1
+        rw [hds, List.drop_left] at hmore
+        rw [hds, hd, hdrop, hmore]
+        exact ⟨more, rfl⟩
+
 end TH
